@@ -24,7 +24,7 @@ def one_case(chk, s, rng, c):
     aggr = src.chains[0]["time"]
     raw_src = src.tlv()
     t = req["target"]
-    pub_req = None if t == "head" else (src.cal["pub"] if (t == "equal" and src.cal) else aggr + 1000 if t == "equal" else aggr + 7000 + rng.randrange(50) if t in ("later", "pubrec") else aggr - 10)
+    pub_req = None if t == "head" else (src.cal["pub"] if (t == "equal" and src.cal) else aggr + 1000 if t == "equal" else aggr if t == "ataggr" else aggr + 7000 + rng.randrange(50) if t in ("later", "pubrec") else aggr - 10)
     pre = None
     if t == "pubrec":      # the publication record to attach must carry the root of the chain the extender is going to return
         st = rng.getstate()
